@@ -2,7 +2,7 @@
 # (rt.N(quick, thorough) per sub-check, per shard); this table only says how
 # to build and shard.
 CHECKS = {
-    "C07": dict(pkg="./c07", shards=12, race=True, race_shards=4, race_filter="^TestC07FreeRunning$", race_quick=True),
+    "C07": dict(pkg="./c07", shards=12, race=True, race_shards=4, race_filter="^(TestC07FreeRunning|TestC07LookupStorm)$", race_quick=True),
     "C08": dict(pkg="./c08", shards=16, level="fault_enumeration"),
     "C13": dict(pkg="./c13", shards=4, build_main=True),
     "C17": dict(pkg="./c17", shards=16),
